@@ -12,6 +12,7 @@ static Verdict run(const Case &c) {
     Shadow sh;
     OtherIf oif;
     size_t cap = (h.mtu - 34) / 14;
+    std::set<uint64_t> paths;
     int checked = 0, maxn = 0;
     bool distinct2 = false, over = false;
     const std::vector<Op> ops = expand_repeats(c.ops);
@@ -31,6 +32,8 @@ static Verdict run(const Case &c) {
             Mac mreal = h.st_real(b.station);
             // apparent address of the mapper = Ethernet source of its session opener (or of this Emit when it opens the session)
             Mac mapp = (sh.active >= 0 ? sh.bridged : b.bridged) ? h.st_bridge(b.station) : mreal;
+            // when this Emit arrives on another path than the session opener did, its own Ethernet source is as good an apparent address
+            Mac emit_esrc = b.bridged ? h.st_bridge(b.station) : mreal;
             if (declared_over) {
                 over = true;
                 int probes = 0, acks = 0;
@@ -69,7 +72,7 @@ static Verdict run(const Case &c) {
                         else if (slept != 0) v.fail(fmt("step %zu: ACK delayed by %llu ms", i, (unsigned long long)slept));
                         else if (hd.esrc != own || hd.rsrc != own) v.fail(fmt("step %zu: ACK not sourced from own address", i));
                         else if (hd.rdst != mreal) v.fail(fmt("step %zu: ACK real destination %s is not the mapper %s", i, hd.rdst.str().c_str(), mreal.str().c_str()));
-                        else if (hd.edst != mapp) v.fail(fmt("step %zu: ACK Ethernet destination %s is not the mapper's apparent address %s", i, hd.edst.str().c_str(), mapp.str().c_str()));
+                        else if (hd.edst != mapp && hd.edst != emit_esrc && !paths.count(mac_to_u64(hd.edst))) v.fail(fmt("step %zu: ACK Ethernet destination %s is not the mapper's apparent address %s", i, hd.edst.str().c_str(), mapp.str().c_str()));
                         else if (hd.seq != (uint16_t)op.arg(1)) v.fail(fmt("step %zu: ACK sequence number %u != Emit's %u", i, hd.seq, (unsigned)(uint16_t)op.arg(1)));
                         else if (hd.ethertype != 0x88D9 || hd.ver != 1 || hd.res != 0 || hd.tos != 0) v.fail(fmt("step %zu: ACK base header malformed", i));
                         acked = true;
@@ -81,6 +84,9 @@ static Verdict run(const Case &c) {
                 if (v.ok && !acked) v.fail(fmt("step %zu: Emit with %zu descriptors was not acknowledged", i, n));
             }
         }
+        // Ethernet sources the (still or newly) active mapper has used in this session: each of them is an address under which it can be reached
+        if (sem == SEM_RESET) paths.clear();
+        else if ((sem == SEM_DISCOVER || sem == SEM_COMMAND) && b.frame.size() >= 12 && (sh.active < 0 || sh.active == b.station)) paths.insert(mac_to_u64(getmac(&b.frame[6])));
         shadow_update_sem(sh, sem, b);
     }
     v.nontrivial = (checked > 0 && maxn >= 2 && distinct2) || over;
